@@ -343,6 +343,20 @@ GROUPS["iter_bv"] = G("iter_bv", BV_PRELUDE + ["iter.rs"], BV_BASE + [("decl", "
 GROUPS["iter_bv"]["features"] = "#![feature(allocator_api)]"
 GROUPS["bvd_shift_ref"] = G("bvd_shift_ref", BVD_PRELUDE + ["chunk_seq.rs"], BVD_BASE + stub(BVD_CORE) + verify(["bvd.shl_ref", "bvd.shr_ref"]))
 GROUPS["bvd_shift_ref"]["features"] = "#![feature(allocator_api)]"
+GROUPS["bvf_hash"] = G("bvf_hash", WORD_PRELUDE + ["conv_std.rs"] + VALUE_PRELUDE + ["bvf.rs", "bvf_val.rs", "hash.rs", "bvf_hash.rs"],
+    BVF_BASE + stub(BVF_CORE) + stub(["bvf.significant_bits"]) + verify(["bvf.hash"]))
+GROUPS["bvd_hash"] = G("bvd_hash", BVD_VAL_PRELUDE + ["hash.rs", "bvd_hash.rs"], BVD_BASE + stub(BVD_CORE) + stub(["bvd.significant_bits"]) + verify(["bvd.hash"]))
+GROUPS["bvd_hash"]["features"] = "#![feature(allocator_api)]"
+BV_VAL_PRELUDE = WORD_PRELUDE + ["conv_std.rs"] + VALUE_PRELUDE + ["bvf.rs", "bvf_val.rs", "bvd.rs", "bvd_val.rs", "iarray.rs", ("chunk.rs", {"J": "u64", "Y": ""}), "bv.rs", "bv_val.rs"]
+GROUPS["bv_hash"] = G("bv_hash", BV_VAL_PRELUDE + ["hash.rs", "bvf_hash.rs", "bvd_hash.rs", "bv_hash.rs"],
+    BV_BASE + [("stub", "bv.significant_bits"), ("stub", "bv.get_int", {"J": "u64", "Y": ""})] + verify(["bv.hash"]))
+GROUPS["bv_hash"]["features"] = "#![feature(allocator_api)]"
+GROUPS["bv_iarray"] = dict(name="bv_iarray", features="#![feature(allocator_api)]",
+    prelude=lambda ctx: BV_PRELUDE + ([word_j()] if ctx["J"] != "u64" else []) + ([("chunk.rs", {"Y": "_{J}"})] if ctx["J"] != "u64" else []),
+    items=lambda ctx: BV_BASE + int_impl_j(ctx) + slice_ia("stub", yj_d(ctx)) + [("stub", "bvf.int_len", yj_d(ctx)), ("stub", "bvf.get_int", yj_d(ctx)), ("stub", "bvd.int_len", yj_d(ctx)), ("stub", "bvd.get_int", yj_d(ctx))]
+        + with_ctx(verify(["bv.int_len", "bv.get_int"]), yj_d(ctx)))
+GROUPS["bv_defaults"] = G("bv_defaults", BV_PRELUDE, BV_BASE + stub(["bv.len", "bv.leading_zeros"]) + verify(["bv.significant_bits"]))
+GROUPS["bv_defaults"]["features"] = "#![feature(allocator_api)]"
 GROUPS["mul_theory"] = dict(name="mul_theory", prelude=lambda ctx: WORD_PRELUDE + VALUE_PRELUDE + ["value_mul.rs"], items=lambda ctx: [("decl", "decl.Bit")])
 
 def cmp_prelude(ctx):
@@ -530,6 +544,14 @@ def dshift_ref(ts):
     return [("bvd_shift_ref", {"I": "u64", "T": t}) for t in ts]
 PROPS["C05"]["quick"] += dshift_ref(["u8", "u128"])
 PROPS["C05"]["thorough"] += dshift_ref(TYPES6)
+def hash_jobs(ws):
+    return ([("bvf_hash", {"I": i}) for i in ws] + [("bvd_hash", U64), ("bv_hash", U64), ("bv_defaults", U64), ("bv_iarray", {"I": "u64", "J": "u64"})] +
+            jobs("bvf_defaults", ws) + [("bvd_defaults", U64)])
+PROPS["C10"] = {"quick": hash_jobs(WQ), "thorough": hash_jobs(W4)}
+PROPS["C16"]["quick"] += [("bv_defaults", U64)]
+PROPS["C16"]["thorough"] += [("bv_defaults", U64)]
+PROPS["C12"]["quick"] += [("bv_iarray", {"I": "u64", "J": j}) for j in WQ]
+PROPS["C12"]["thorough"] += [("bv_iarray", {"I": "u64", "J": j}) for j in W4]
 BVD_ARITH_JOBS = [("bvd_arith", dict(U64, **ARITH_D[o])) for o in ("add", "sub")]
 PROPS["C01"]["quick"] += BVD_ARITH_JOBS
 PROPS["C01"]["thorough"] += BVD_ARITH_JOBS
@@ -617,7 +639,13 @@ MANIFEST_TEXT["C09"] = dict(
           "implementation, word size and spare capacity follow because all are the same functions of two naturals." + DYN_NOTE),
     note=("Comparison impls are emitted as inherent methods (Verus mis-verifies reversed for-loops reached from a trait impl; DESIGN 0), overloaded calls are resolved to the inherent names by recorded unit-local rewrites (R19b). "
           "Assumed: Ordering::reverse (T1), A-size for comparisons: a Bvd/Bv operand is shorter than usize::MAX/64 bits (the Bvd-vs-Bvf loops run over max(len_in_BITS, words) indices). u128/usize word types: second engine only. " + TRUST_NOTE))
-dyn_only("C10", "a recording Hasher: equal values (same and different lengths, inline vs heap, spare capacity) must feed identical bytes.", "Hash units (uninterpreted hasher feed model prototyped) not yet woven; D8 was found and fixed.")
+MANIFEST_TEXT["C10"] = dict(
+    text=("Proof: Hash::hash of Bvf<I,N>, Bvd and Bv is verified against `what the Hasher is fed == what it had been fed before ++ canon(val(self))`, where canon(v) is the sequence of base-2^w digits of the VALUE, least "
+          "significant first, without a leading zero digit (w = the type's storage word, 64 for Bvd and Bv). The fed sequence is therefore a function of the value alone: two vectors of one type that compare equal "
+          "(C09: equal values) feed identical data whatever their lengths, spare capacity or (for Bv) inline/heap representation. Rests on the verified significant_bits (exact position of the top set bit) and, for Bv, "
+          "on the verified get_int dispatch; the Hasher is modelled by an uninterpreted record `fed` and the assumption that <uN as Hash>::hash appends exactly that word (T1)." + DYN_NOTE),
+    note=("Emitted as inherent generic methods hash<H: Hasher> (std's Hash trait has no contract hook). Assumed: <u8|u16|u32|u64 as Hash>::hash feeds one item equal to the word (T1). "
+          "u128/usize word types: second engine only. " + TRUST_NOTE))
 dyn_only("C11", "TryFrom/From between the six native integer types and Bvf/Bvd/Bv in both directions, Bit conversions, slice conversions, against the documented length/value/error rules.", "Conversion units not yet written; D5 was found and fixed.")
 MANIFEST_TEXT["C12"] = dict(
     text=("Proof: TryFrom<&Bvf<I1,N1>> for Bvf<I2,N2> (any two word sizes), TryFrom<&Bvd> for Bvf<I,N> and From<&Bvf<I,N>> for Bvd are verified against the contract "
